@@ -299,6 +299,14 @@ def _scenarios(maxops):
                 trees.append(_derive_tree(trees[draw(st.integers(0, len(trees) - 1))], universe, names, edits))
         init = draw(st.sampled_from(INITS)) + draw(st.sampled_from(INIT_OPTS))
         aops = draw(st.lists(st.tuples(st.sampled_from(OPS_WEIGHTED), sel, sel, sel), min_size=2, max_size=maxops))
+        # a type-only change that keeps the bytes (link <-> file holding the link's target) is, half of the time, followed at
+        # once by reset --hard: the one operation that has to look at the type of what is in its way, not only its bytes
+        follow = []
+        for a in aops:
+            follow.append(a)
+            if a[0] in ("to_file", "to_symlink") and a[2] % 3 == 0 and a[3] % 2 == 0:
+                follow.append(("reset_hard", a[1], a[2], a[3]))
+        aops = follow
         return dict(flavour=flavour, names=names, universe=universe, trees=trees, init=init, aops=aops)
 
     return scen()
